@@ -33,6 +33,13 @@ class ReconnH(explore.Harness):
         def _bad_sub(sess, method, target, headers, body):
             if getattr(sess, "bad_subscribe", False):
                 return 207, b'{"characteristics":[{"aid":1,"iid":9}]}', "application/hap+json"
+            unsub = getattr(sess, "on_unsubscribe", None)
+            if unsub and b'"ev":false' in body.replace(b" ", b""):
+                # a request that turns events OFF (what a tidy close might send first) meets a peer that resets / closes / stays silent
+                conn = next(c for c in self.net.conns if getattr(c, "session", None) is sess)
+                if unsub != "mute":
+                    self.loop.call_soon(conn.peer_reset if unsub == "reset" else conn.peer_close)
+                return None
             if getattr(sess, "close_on_subscribe", False):
                 # the peer goes away instead of answering the re-subscription that connection_made(True) sends
                 conn = next(c for c in self.net.conns if getattr(c, "session", None) is sess)
@@ -74,6 +81,15 @@ class ReconnH(explore.Harness):
             self.pairing.description = mk_description(self.hosts)
         if p.get("subscriptions"):
             self.pairing.subscriptions.update({(1, 9)})
+        if p.get("damage"):
+            # the stored pairing record is damaged (a truncated / non-hex long-term key, a field missing): every secure-session setup fails on
+            # the controller's side, whatever the accessory answers
+            field, how = p["damage"]
+            pd = self.pairing.pairing_data
+            if how == "missing":
+                pd.pop(field, None)
+            else:
+                pd[field] = {"odd": pd[field][:-1], "nonhex": "zz" + pd[field][2:], "short": pd[field][:20], "empty": ""}[how]
         self.connector_ids = []
         self.events = []  # (time, kind, info) harness-side log of rounds
         self.auth_failed_at = None
@@ -114,6 +130,8 @@ class ReconnH(explore.Harness):
             sess.close_on_subscribe = True
         elif beh == "ok-reset-on-subscribe":
             sess.close_on_subscribe = "reset"  # connection reset (no EOF first): connection_lost(exc) is the first the protocol hears of it
+        elif beh in ("ok-reset-on-unsubscribe", "ok-close-on-unsubscribe", "ok-mute-on-unsubscribe"):
+            sess.on_unsubscribe = beh.split("-")[1]
         elif beh == "ok-bad-subscribe-reply":
             # secure session is fine, but the reply to the re-subscription is malformed (a 207 whose entry has no status): whatever
             # connection_made(True) does with it, the connection must not be leaked
